@@ -23,7 +23,7 @@ class Builder:
                  mkparam=None, allow_dangling=True, allow_cpa=True, hostile_names=True, allow_blocks=True,
                  mkdoc=None, compound_generic=True, max_items=8, name_forms=False, trigger=":keyword",
                  p_trigger=0.0, p_between=0.12, p_reuse_params=0.12, p_clone=0.0, clone_toggle_doc=False,
-                 class_arg_variants=False, virtual_members=False, p_doc_impl=0.0, helpers_in_tests=0.0):
+                 class_arg_variants=False, virtual_members=False, p_doc_impl=0.0, helpers_in_tests=0.0, p_end_doc=0.0):
         self.rng = rng
         self.uid = 0
         self.p_doc = p_doc
@@ -36,6 +36,7 @@ class Builder:
         self.mkdoc = mkdoc
         self.allow_dangling = allow_dangling
         self.helpers_in_tests = helpers_in_tests
+        self.p_end_doc = p_end_doc              # a doccomment in front of a CLOSING command (endfunction, cpp_end_class, ...)
         self.allow_cpa = allow_cpa
         self.hostile_names = hostile_names
         self.allow_blocks = allow_blocks
@@ -157,7 +158,11 @@ class Builder:
         end = "end" + kind
         endargs = [args[0]] if (r.random() < 0.2 and args[0].isidentifier()) else []
         d = doc if doc is not None else (None if is_impl and force_doc is None else self.doc(uid, force_doc))
-        return Item(kind, kind, args, uid, doc=d, body=body, endcmd=end, endargs=endargs, is_impl=is_impl, **gt)
+        it = Item(kind, kind, args, uid, doc=d, body=body, endcmd=end, endargs=endargs, is_impl=is_impl, **gt)
+        if self.p_end_doc and not is_impl and args[0].isidentifier() and r.random() < self.p_end_doc:
+            it.endargs = [args[0]]
+            it.end_doc = [f"{{L{uid}.70}} doccomment in front of the closing command"]
+        return it
 
     def nested_defs(self, depth):
         """A definition whose body holds another definition (and/or a member/test implementation); the
@@ -418,8 +423,24 @@ class Builder:
                     a.between = [Item("plain", "cpp_virtual_member", [a.gt["name"]], vuid)]
                     a.gt["params"] = []
                     self.virtuals += 1
-        return Item("cpp_class", "cpp_class", [nm] + bases, uid, doc=self.doc(uid, force_doc), body=body,
-                    endcmd="cpp_end_class", name=nm, bases=bases)
+            # ... and, in a third of the classes, explicitly: a DOCUMENTED pure virtual member directly followed by a member or
+            # constructor WITHOUT doccomment that has a definition (whose parameters must never end up on the virtual one)
+            if r.random() < 0.35:
+                a = self.member(depth + 1, nm, ctor=r.random() < 0.3)
+                a.doc = self.doc(a.uid, True)
+                a.impl = None
+                a.between = [Item("plain", "cpp_virtual_member", [a.gt["name"]], self.new_uid())]
+                a.gt["params"] = []
+                nx = self.member(depth + 1, nm, ctor=r.random() < 0.5)
+                nx.doc = None
+                body.extend([a, nx])
+                self.virtuals += 1
+        kl = Item("cpp_class", "cpp_class", [nm] + bases, uid, doc=self.doc(uid, force_doc), body=body,
+                  endcmd="cpp_end_class", name=nm, bases=bases)
+        if self.p_end_doc and r.random() < self.p_end_doc:
+            kl.endargs = [nm]
+            kl.end_doc = [f"{{L{uid}.70}} doccomment in front of the closing command"]
+        return kl
 
     def item(self, depth, ctx):
         r = self.rng
